@@ -114,9 +114,20 @@ func genC10(t *rapid.T) schedCase {
 				}
 				c.Steps = append(c.Steps, step{Kind: "advance", D: time.Duration(rapid.SampledFrom([]int{5001, 5001, 7000, 61000}).Draw(t, "gap")) * time.Millisecond})
 			}
-			for i, n := 0, rapid.IntRange(30, 50).Draw(t, "nburst"); i < n; i++ {
+			nburst := rapid.IntRange(30, 50).Draw(t, "nburst")
+			if rapid.Bool().Draw(t, "chmod") {
+				// the hooks directory becomes world-writable (hooks are refused from then on), a round notices it, and the
+				// changes keep coming: more of them than any notification buffer holds
+				c.Steps = append(c.Steps, step{Kind: "chmod-hooks", Perm: 0o777}, step{Kind: "launch", Op: &opSpec{Kind: "setadmin", User: "cur1", Admin: true}},
+					step{Kind: "advance", D: 5001 * time.Millisecond}, step{Kind: "launch", Op: &opSpec{Kind: "setadmin", User: "cur1", Admin: false}}, step{Kind: "advance", D: 5001 * time.Millisecond})
+				if rapid.Bool().Draw(t, "chmodback") {
+					c.Steps = append(c.Steps, step{Kind: "chmod-hooks", Perm: 0o755})
+				}
+				nburst += 50
+			}
+			for i := 0; i < nburst; i++ {
 				tag++
-				op := opSpec{Kind: rapid.SampledFrom([]string{"setadmin", "update", "remove"}).Draw(t, "bk"), User: rapid.SampledFrom([]string{"cur1", "nosuch"}).Draw(t, "bu"), PW: fmt.Sprintf("n%d", tag), Admin: i%2 == 0}
+				op := opSpec{Kind: rapid.SampledFrom([]string{"setadmin", "setadmin", "update", "remove"}).Draw(t, "bk"), User: rapid.SampledFrom([]string{"cur1", "cur1", "nosuch"}).Draw(t, "bu"), PW: fmt.Sprintf("n%d", tag), Admin: i%2 == 0}
 				c.Steps = append(c.Steps, step{Kind: "launch", Op: &op})
 			}
 		default:
@@ -195,6 +206,12 @@ func TestC10NoWedge(t *testing.T) {
 			}
 		}
 		vlib.Class("mode:" + c.Mode)
+		for _, s := range c.Steps {
+			if s.Kind == "chmod-hooks" && s.Perm&0o002 != 0 && c.Hooks != "" {
+				vlib.Class("hooks-dir-made-world-writable-at-run-time")
+				break
+			}
+		}
 		nl := 0
 		for _, s := range c.Steps {
 			if s.Kind == "launch" {
